@@ -36,18 +36,6 @@ fn peek_bt(o: &CommitOverlay, k: &[u8]) -> (bool, bool, u8, u64) {
 	}
 }
 
-fn opts(n: usize) -> Options {
-	Options {
-		path: std::path::PathBuf::new(),
-		columns: (0..n).map(|_| ColumnOptions::default()).collect(),
-		sync_wal: true,
-		sync_data: true,
-		stats: false,
-		salt: None,
-		compression_threshold: Default::default(),
-	}
-}
-
 /// C08.A1: validation is exactly "copying cannot fail": for every change set, check_operations() == Ok implies
 /// copy_to_overlay() == Ok, and check_operations() == Err implies the overlay is not touched by check_operations.
 #[kani::proof]
@@ -56,6 +44,9 @@ fn opts(n: usize) -> Options {
 fn c08_a1_checked_changeset_copies_without_error() {
 	let mut o = opts(1);
 	o.columns[0].ref_counted = kani::any();
+	o.columns[0].multitree = kani::any();
+	o.columns[0].append_only = kani::any();
+	o.columns[0].preimage = kani::any();
 	let mut overlay = CommitOverlay::new();
 	let mut cs = IndexedChangeSet::new(0);
 	cs.changes.push(any_op(key(1), 6));
@@ -116,35 +107,7 @@ fn c08_a1_checked_btree_changeset_copies_without_error() {
 	std::mem::forget(k1); std::mem::forget(k2);
 }
 
-fn wc<S: Default>() -> WaitCondvar<S> { WaitCondvar { cv: Condvar::new(), work: Mutex::new(S::default()) } }
-
-fn mk_db(o: Options, ncols: usize, bg_err: bool) -> DbInner {
-	let mut overlays = Vec::new();
-	let mut c = 0;
-	while c < ncols { overlays.push(CommitOverlay::new()); c += 1; }
-	DbInner {
-		columns: Vec::new(),
-		options: o,
-		shutdown: AtomicBool::new(false),
-		log: crate::log::verif_kani::mk_log_plain(true),
-		commit_queue: Mutex::new(Default::default()),
-		commit_queue_full_cv: Condvar::new(),
-		log_worker_wait: wc(),
-		commit_worker_wait: Arc::new(wc()),
-		commit_overlay: RwLock::new(overlays),
-		trees: RwLock::new(Default::default()),
-		log_queue_wait: wc(),
-		flush_worker_wait: Arc::new(wc()),
-		cleanup_worker_wait: wc(),
-		cleanup_queue_wait: wc(),
-		iteration_lock: Mutex::new(()),
-		last_enacted: AtomicU64::new(0),
-		next_reindex: AtomicU64::new(1),
-		bg_err: Mutex::new(if bg_err { Some(Arc::new(Error::Corruption(String::new()))) } else { None }),
-		db_version: crate::options::CURRENT_VERSION,
-		lock_file: vc::raw_file(9),
-	}
-}
+use super::verif_kani::{mk_db, opts};
 
 fn op_of(kind: u8, k: Key) -> Operation<Key, RcValue> {
 	match kind {
@@ -239,7 +202,7 @@ macro_rules! c08_a2 {
 	($name:ident, $bt:expr, $first:expr) => {
 		crate::verif_env! {
 			#[kani::proof]
-			#[kani::unwind(34)]
+			#[kani::unwind(6)]
 			#[kani::stub(<std::os::fd::OwnedFd as std::ops::Drop>::drop, crate::verif_common::fd_drop_noop)]
 			fn $name() { commit_raw_cases($bt, $first) }
 		}
@@ -330,4 +293,31 @@ fn c01_k2_commit_overlay_last_write_wins() {
 	kani::cover!(last[0].0 == 3 && cid == 1);
 	kani::cover!(last[0].0 == 2 && cid == 2);
 	std::mem::forget(overlay); std::mem::forget(sets); std::mem::forget(o);
+}
+
+
+/// C07.K1: on a reference-counted column a queued Dereference / Reference never hides or changes the value another
+/// queued commit published for that key (removals of counted values are deliberately not mirrored in the overlay).
+#[kani::proof]
+#[kani::unwind(34)]
+#[kani::stub(alloc::fmt::format, crate::verif_common::fmt_stub)]
+fn c07_k1_counted_dereference_leaves_overlay_alone() {
+	let mut o = opts(1);
+	o.columns[0].ref_counted = true;
+	o.columns[0].preimage = true;
+	let mut overlay = CommitOverlay::new();
+	let v: u8 = kani::any();
+	let mut first = IndexedChangeSet::new(0);
+	first.changes.push(Operation::Set(key(1), vec![v].into()));
+	let mut bytes = 0usize;
+	first.copy_to_overlay(&mut overlay, 1, &mut bytes, &o).unwrap();
+	let mut second = IndexedChangeSet::new(0);
+	let deref: bool = kani::any();
+	second.changes.push(if deref { Operation::Dereference(key(1)) } else { Operation::Reference(key(1)) });
+	second.copy_to_overlay(&mut overlay, 2, &mut bytes, &o).unwrap();
+	assert!(peek(&overlay, &key(1)) == (true, true, v, 1), "C07.K1 a counted key stays readable from the overlay after a queued dereference/reference");
+	second.clean_overlay(&mut overlay, 2);
+	assert!(peek(&overlay, &key(1)) == (true, true, v, 1), "C07.K1 retiring the dereferencing commit leaves the older entry");
+	kani::cover!(deref);
+	std::mem::forget(overlay); std::mem::forget(first); std::mem::forget(second); std::mem::forget(o);
 }
